@@ -14,7 +14,7 @@ import (
 )
 
 func init() {
-	register(&Prop{ID: "C12", Module: "V.C12.Check", Gen: c12Gen, Quick: 260, Thorough: 6000, Shard: 40})
+	register(&Prop{ID: "C12", Module: "V.C12.Check", Gen: c12Gen, Quick: 200, Thorough: 6000, Shard: 40})
 }
 
 // ---------------------------------------------------------------- independent reference matcher
@@ -90,16 +90,7 @@ func c12MatchKF(s string, pat []string) []string {
 	if len(pat) == 0 {
 		return nil
 	}
-	unstable := c12WidthUnstable(s)
-	for _, p := range pat {
-		unstable = unstable || c12WidthUnstable(p)
-	}
-	if unstable {
-		return []string{"C12-pattern-byte-offsets"}
-	}
-	if _, exact := d2ast.ReservedKeywords[s]; !exact && c12Reserved(s) {
-		return []string{"C12-reserved-keyword-case"}
-	}
+	// (C12-pattern-byte-offsets and C12-reserved-keyword-case were repaired by /repo ef9a8be47: no signature)
 	if !c12RefMatch(s, pat) && !c12Reserved(s) {
 		rs := []rune(s)
 		for k := 0; k < len(rs); k++ {
